@@ -55,6 +55,7 @@ POINTS = {
     "N": (39, 42),          # 1 mm outside R
     "H": (Fr(121, 2), 42),  # 0.5 mm outside R (inside D)
     "Org": (0, 0),          # the bed origin: coordinates that are exactly zero
+    "Q": (35, 25),          # outside R by 5 mm; (10,10)+Q lands inside R (offsets mistaken for coordinates)
 }
 # arcs: name -> (start point, end point, I, J, clockwise); absolute mm only
 ARCS = {
@@ -371,6 +372,13 @@ class World(object):
         if k == "NUDGE":
             ax = ev[1].lower()
             return "G1 %s%s" % (ev[1], ev[2]), {ax: f[ax] + Fr(ev[2]) * (Fr(254, 10) if f["inch"] else 1)}
+        if k == "HOME":
+            axes = ev[1]
+            upd = {}
+            for a in axes:
+                upd[a.lower()] = Fr(0)
+                upd["s" + a.lower()] = Fr(0)
+            return "G28 " + " ".join(axes), upd
         if k == "ESET":
             unit = Fr(254, 10) if f["inch"] else Fr(1)
             return "G92 E" + ev[1], dict(e=Fr(ev[1]) * unit)
@@ -447,7 +455,7 @@ class World(object):
         for i, ev in enumerate(menu):
             k = ev[0]
             if k in ("TRAVEL", "PRINT", "WIPE", "TRAVELZ", "ZMOVE", "XONLY", "YONLY", "ARC", "RETRACT",
-                     "RECOVER", "FWRETRACT", "FWRECOVER", "G92XYZ", "NUDGE", "ESET"):
+                     "RECOVER", "FWRETRACT", "FWRECOVER", "G92XYZ", "NUDGE", "ESET", "HOME"):
                 if not (self.m_active and self.m_homed):
                     continue                               # the properties say "after homing"
             if k in ("TRAVEL", "PRINT", "WIPE"):
@@ -494,6 +502,8 @@ class World(object):
                 continue
             if k == "G92XYZ" and (self.episode or f["shifted"]):
                 continue
+            if k == "HOME" and (self.episode or all(f[a.lower()] == 0 for a in ev[1])):
+                continue                                   # no homing while an episode is open (C03's premise)
             if k == "AT" and self.cfg.get("at_toggle_only", True):
                 act = self._at_reference(ev[1], ev[2])
                 if len(ev) > 3 and ev[3]:
@@ -532,6 +542,8 @@ class World(object):
         k = ev[0]
         if k == "C10CHECK":
             self._c10_check(st)
+        elif k == "TRACKPROBE":
+            self._track_probe(st)
         elif k == "AT":
             self._at(ev[1], ev[2], len(ev) > 3 and ev[3], st)
         elif k == "ADD":
@@ -548,6 +560,12 @@ class World(object):
             self._script(ev[1], ev[2], st)
         elif k == "NEWPRINT":
             self._event("PRINT_STARTED", st)
+            # the plugin assumes firmware defaults (mm, absolute) at the start of every print; the reference
+            # printers model the same convention: the machine is reset between jobs
+            for pr in (self.A, self.B):
+                pr.abs = True
+                pr.eabs = True
+                pr.unit = Fr(1)
             for c in ("G28", "G1 X10 Y10 Z1 F3000", "G92 E0"):
                 self._gcode(c, st)
             # both printers start the new job from the same physical state
@@ -821,6 +839,47 @@ class World(object):
                     f.fwd.append(c)
         st.note = ("script", expect, k0 == self.impl_key())
 
+    # ---- directed probe: turn a deviation of the tracked position into a behavioural witness
+    def _track_probe(self, st):
+        """If the filter's idea of the tool position has drifted away from the file's true position, there is a
+        region set (a small disc around the believed position, clear of every true destination of the rest of
+        the program) for which the next Z-only move is wrongly suppressed.  The probe builds exactly that
+        program on a copy of the world and reports only the *behavioural* outcome; the tracked position is read
+        defensively and is merely the hint where to put the region.  The world itself is left unchanged."""
+        if not (self.m_active and self.m_homed and self.m_enabled) or self.episode:
+            return
+        try:
+            pos = self.plugin.state.position
+            tx, ty = float(pos.X_AXIS.current), float(pos.Y_AXIS.current)
+        except Exception:   # noqa
+            return
+        bx, by = float(self.B.p["X"]), float(self.B.p["Y"])
+        if math.hypot(tx - bx, ty - by) <= 1.0:
+            return
+        st.tags.add("track-probe-fired")
+        zt = fmt(self.B.logical("Z") + 1) if self.B.abs else "1"
+        cmd = "G1 Z" + zt
+        g, sc = H.gcode_and_subcode_for_cmd(cmd)
+        kinds = self.cfg.get("probe_kinds", ("believed", "true"))
+        for kind in kinds:
+            c = World.restore(self.snapshot(), self.cfg)
+            H.set_user(False)
+            cx, cy = (tx, ty) if kind == "believed" else (bx, by)
+            data = dict(type="CircularRegion", cx=cx, cy=cy, r=0.45, id="probe")
+            if c.call(c.plugin.on_api_command, "addExcludeRegion", dict(data)) is not None:
+                continue
+            r = c.call(c.plugin.handleGcodeQueuing, c.comm, "queuing", cmd, None, g, sc, tags=set())
+            fwd = H.decode(cmd, r)
+            if kind == "believed" and not (r is None or r == [cmd]):
+                self.viol("%s the tool is at (%s, %s); with an additional region (disc r=0.45 at (%s, %s)) that no "
+                          "destination of the program touches, the Z-only move %r is not forwarded verbatim: %r "
+                          "(the filter tests regions %s mm away from the true position)"
+                          % (self.prop, bx, by, tx, ty, cmd, r, round(math.hypot(tx - bx, ty - by), 3)))
+            if kind == "true" and cmd in fwd:
+                self.viol("%s the tool is at (%s, %s) inside a region drawn around it (disc r=0.45) but the Z-only move "
+                          "%r is forwarded: %r (the filter believes the tool to be at (%s, %s))"
+                          % (self.prop, bx, by, cmd, r, tx, ty))
+
     # ---- C10: differential check against a freshly initialised plugin (does not change the world)
     C10_PROBES = ["G1 X50 Y40", "G1 X70 Y65 E1", "G1 E-1 F1800", "G1 E0 F1800", "M117 probe", "M204 S7", "G1 Z2",
                   "G91", "G20", "G10", "@ExcludeRegion enable", "@ExcludeRegion disable"]
@@ -993,6 +1052,21 @@ class World(object):
                             self.viol("C04 forwarded extruding move %r pushes %s mm, the file specifies %s mm "
                                       "(forwarded %r)" % (c, float(dA), float(dB), f.fwd), self._detail(f))
                         st.tags.add("extruding-move-forwarded")
+            # filament conservation: what the printer deposits = what the file deposits minus the deposits of
+            # commands that were not forwarded (suppressed or rewritten)
+            if f.kind == "gcode":
+                dA = sum(a1.hwm - a0.hwm for c, a0, a1 in f.atrace)
+                dBdep = (f.B1.hwm - f.B0.hwm) if f.cmd in f.fwd else 0
+                if max(abs(f.B0.E), abs(f.B1.E)) > 10 ** 9:
+                    self.mon["c04_D"] = None       # beyond float resolution: the accounting is meaningless from here on
+                elif self.mon.get("c04_D", Fr(0)) is not None:
+                    self.mon["c04_D"] = self.mon.get("c04_D", Fr(0)) + dA - dBdep
+            if not f.episode1 and abs(A.depth() - B.depth()) <= DTOL and not (A.fw or B.fw) \
+                    and self.mon.get("c04_D", Fr(0)) is not None:
+                if abs(self.mon.get("c04_D", Fr(0))) > 10 * DTOL:
+                    self.viol("C04 filament accounting outside a region: the printer has deposited %s mm more than the "
+                              "file specifies for the commands that were forwarded (after %r -> %r)"
+                              % (float(self.mon["c04_D"]), f.cmd, f.fwd), self._detail(f))
             if not f.episode1 and abs(A.E - B.E) > TOL + abs(B.E) / 10 ** 12:
                 self.viol("C04 extruder coordinate outside a region: printer E=%s, file E=%s after %r -> %r"
                           % (float(A.E), float(B.E), f.cmd, f.fwd), self._detail(f))
@@ -1060,6 +1134,14 @@ class World(object):
         for f in st.feeds:
             if f.active:
                 st.tags.add("hook-while-active")
+                # while a print is active the filter works on the *current* region list
+                if f.kind == "gcode" and f.is_move and self.m_homed:
+                    if f.dest_in and f.cmd in f.fwd:
+                        self.viol("C11 %r ends inside a region of the current list %r but was forwarded (active print)"
+                                  % (f.cmd, [r["id"] for r in f.regions]))
+                    if not f.dest_in and not f.episode0 and f.cmd not in f.fwd:
+                        self.viol("C11 %r was suppressed although the current region list %r does not contain its "
+                                  "destination (active print)" % (f.cmd, [r["id"] for r in f.regions]))
                 continue
             st.tags.add("hook-while-inactive")
             if f.kind == "gcode":
